@@ -105,8 +105,8 @@ InvNoLowered   ==
 InvIdentity    ==
     Final => LET cur == Cur(ScoresOf(cells)) IN
              (\A p \in 1..NP : best[p] = CountOf(cur, p)) => res = cur
-\* weaker facts that also hold for the pinned algorithm (kept as must-hold in the as-is config)
-InvAsIsNeverOverfull == Final => \A p \in 1..NP : CountOf(res, p) <= Max2(best[p], 0) + NCh
+\* the weaker fact that also holds for the pinned algorithm (must-hold in the as-is config):
+\* with targets that sum to the number of channels no channel is left unassigned
 InvAsIsAllAssigned   == Final => \A c \in 1..NCh : res[c] \in 1..NP
 
 \* ---------------------------------------------------------------- layer mode
